@@ -73,8 +73,6 @@ def render_stage(st, idx, hp, unop, rng, tag):
         extra.append("<<< " + st["word"])
     elif st["frm"].startswith("<"):
         extra.append("< " + path_name(int(st["frm"][1:]), unop))
-    if rng:
-        rng.shuffle(extra) if all(r[1] != "&" for r in st["redirs"]) else None
     return " ".join(words + extra)
 
 
@@ -149,17 +147,11 @@ def run_real(cicada, line, work, timeout=30, strace=False, extra_fds=()):
     fo = open(os.path.join(work, "out.txt"), "ab")
     fe = open(os.path.join(work, "err.txt"), "ab")
     held = []
+    if extra_fds:
+        # extra inherited descriptors are opened by a wrapper shell (never dup2 inside this threaded process)
+        cmd = ["/bin/sh", "-c", " ".join("exec %d<in.txt;" % fd for fd in extra_fds) + ' exec "$@"', "sh"] + cmd
     try:
-        for fd in extra_fds:
-            src = os.open(os.path.join(work, "in.txt"), os.O_RDONLY)
-            if src != fd:
-                os.dup2(src, fd, inheritable=True)
-                os.close(src)
-            else:
-                os.set_inheritable(fd, True)
-            held.append(fd)
-        p = subprocess.run(cmd, cwd=work, env=env, stdin=fi, stdout=fo, stderr=fe, timeout=timeout,
-                           pass_fds=tuple(extra_fds))
+        p = subprocess.run(cmd, cwd=work, env=env, stdin=fi, stdout=fo, stderr=fe, timeout=timeout)
         rc = p.returncode
     except subprocess.TimeoutExpired:
         rc = "TIMEOUT"
@@ -572,7 +564,7 @@ def gen_stage(rng, i, n, step_paths, unop, capture, weights):
             else:
                 redirs.append("%s%s%d" % (rng.choice("12"), rng.choice("ta"), step_paths.pop()))
     if kind == "B":
-        b = rng.choice(sorted(BUILTINS))
+        b = rng.choice(sorted(k for k in BUILTINS if k != "minfd"))
         return mk_stage("B", frm if n > 1 else "-", redirs, BUILTINS[b][0], builtin=b)
     if kind == "N":
         return mk_stage("N", frm, redirs)
